@@ -211,14 +211,15 @@ func (msg *message) bodySection(item *imap.FetchItemBodySection) []byte {
 	// Extract partial if any
 	b := buf.Bytes()
 	if partial := item.Partial; partial != nil {
-		end := partial.Offset + partial.Size
 		if partial.Offset > int64(len(b)) {
 			return nil
 		}
-		if end > int64(len(b)) {
-			end = int64(len(b))
+		// partial.Offset + partial.Size may overflow
+		size := partial.Size
+		if size > int64(len(b))-partial.Offset {
+			size = int64(len(b)) - partial.Offset
 		}
-		b = b[partial.Offset:end]
+		b = b[partial.Offset : partial.Offset+size]
 	}
 	return b
 }
